@@ -883,6 +883,155 @@ class Extract:
     rename: str = ""
 
 
+PATH_CANARIES = [False]     # thorough tier: reachability canaries after every statement of the extracted code (tools/canary.py)
+CANARY_COUNT = [0]
+
+
+def rw_path_canaries(toks, rep, qual, ex=None, unit_ret=False):
+    """after every statement terminator `;` of the REAL code (innermost bracket `{`), and at the start of every block that
+    holds such a statement, insert `proof { if verif_canary(K) { assert(false); } }` (K unique, `verif_canary` uninterpreted:
+    a failed canary teaches the solver nothing about the others).  Every canary must be REJECTED; one that is not marks a
+    point the verifier considers unreachable, i.e. everything proved after it was proved vacuously.  Skipped: statements
+    that leave the block (`return`/`break`/`continue`), and everything after an `assert(false)` (a `debug_unreachable!`
+    that rule R1 turned into a proof obligation: proved unreachable on purpose)."""
+    out = list(toks)
+    n = len(out)
+    # bracket structure
+    stack = []
+    encl = {}
+    for i, t in enumerate(out):
+        if t.kind == PUNCT and t.text in OPEN:
+            stack.append(i)
+        elif t.kind == PUNCT and t.text in CLOSE:
+            if stack:
+                stack.pop()
+        elif t.kind == PUNCT and t.text == ";":
+            encl[i] = stack[-1] if stack else None
+    ins = []          # (position, text)
+    blocks = set()
+    dead_blocks = set()
+    ids = []
+    keys = {}
+    occ = {}
+    # a `replace` whose pattern spans several statements must still find them adjacent: no canary inside such a match
+    forbidden = set()
+    for (scope, old, new, expect) in (ex.replaces if ex is not None else []):
+        if scope != "replace" or ";" not in old:
+            continue
+        for (a0, b0) in _find_seq_any(out, pat_tokens(old)):
+            forbidden.update(k for k in range(a0, b0) if out[k].kind == PUNCT and out[k].text == ";")
+    for i in sorted(encl):
+        ob = encl[i]
+        if ob is None or out[ob].text != "{" or i in forbidden:
+            continue
+        # statement start: back to the previous `;` / `{` / `}` at the same nesting
+        k = i - 1
+        depth = 0
+        while k > ob:
+            tk = out[k]
+            if tk.kind == PUNCT and tk.text in CLOSE:
+                if depth == 0 and tk.text == "}":
+                    # a block-like statement (`if .. { .. }`, `match .. { .. }`, a loop) ends here when what follows starts a
+                    # new statement (an identifier / keyword other than `else`)
+                    nx = _next_sig(out, k)
+                    if nx <= i and out[nx].kind == IDENT and out[nx].text not in ("else", "as"):
+                        break
+                depth += 1
+            elif tk.kind == PUNCT and tk.text in OPEN:
+                depth -= 1
+            elif depth == 0 and tk.kind == PUNCT and tk.text == ";":
+                break
+            k -= 1
+        first = _next_sig(out, k)
+        ftxt = out[first].text if first <= i else ";"
+        stmt = "".join(t.text for t in out[first:i] if t.kind not in (WS, COMMENT))
+        blocks.add(ob)
+        if ob in dead_blocks:
+            continue
+        if stmt.startswith("assert(false") or stmt.startswith("assert!(false") or ftxt in ("unreachable", "panic", "unimplemented", "todo", "debug_unreachable"):
+            dead_blocks.add(ob)
+            continue
+        if ftxt in ("return", "break", "continue"):
+            continue
+        CANARY_COUNT[0] += 1
+        cid = CANARY_COUNT[0]
+        ids.append(cid)
+        key = "after:" + stmt[:70]
+        occ[key] = occ.get(key, 0) + 1
+        keys[cid] = f"{key}#{occ[key]}"
+        ins.append((i + 1, f" proof {{ if verif_canary({cid}) {{ assert(false); }} }} // @CANARY.path.{cid}\n"))
+    # a block that holds a proved-unreachable marker is dead on purpose: no canary in it at all
+    ins = [(pos, text) for (pos, text) in ins if not any(ob < pos <= match_close(out, ob) for ob in dead_blocks)]
+    for ob in sorted(blocks):
+        if ob == 0 or ob in dead_blocks:
+            continue    # the function body itself: covered by the entry canary
+        # header of the block: from the start of its statement to the `{`
+        k = ob - 1
+        depth = 0
+        while k > 0:
+            tk = out[k]
+            if tk.kind == PUNCT and tk.text in CLOSE:
+                depth += 1
+            elif tk.kind == PUNCT and tk.text in OPEN:
+                if depth == 0:
+                    break
+                depth -= 1
+            elif depth == 0 and tk.kind == PUNCT and tk.text in (";", ","):
+                break
+            k -= 1
+        hdr = "".join(t.text for t in out[k + 1:ob] if t.kind not in (WS, COMMENT))
+        CANARY_COUNT[0] += 1
+        cid = CANARY_COUNT[0]
+        ids.append(cid)
+        key = "block:" + hdr[-70:]
+        occ[key] = occ.get(key, 0) + 1
+        keys[cid] = f"{key}#{occ[key]}"
+        ins.append((ob + 1, f" proof {{ if verif_canary({cid}) {{ assert(false); }} }} // @CANARY.path.{cid}\n"))
+    # end of every code block (and of the function body) that ends in a statement: the values that go out of scope there
+    # have been resolved (this is where a contradictory resolution axiom of a double shows)
+    last_stmt_leaves = {}
+    for i in sorted(encl):
+        pass
+    for ob in sorted(blocks | {0}):
+        if ob in dead_blocks:
+            continue
+        cb = match_close(out, ob)
+        pv = _prev_sig(out, cb)
+        if pv <= ob or not (out[pv].text == ";" or (out[pv].text == "}" and ob == 0 and unit_ret)):
+            continue     # empty block or (possibly) a tail expression
+        # does the last statement leave the block?
+        k = pv - 1 if out[pv].text == ";" else pv
+        depth = 0
+        while k > ob:
+            tk = out[k]
+            if tk.kind == PUNCT and tk.text in CLOSE:
+                if depth == 0 and tk.text == "}" and k != pv:
+                    nx = _next_sig(out, k)
+                    if out[nx].kind == IDENT and out[nx].text not in ("else", "as"):
+                        break
+                depth += 1
+            elif tk.kind == PUNCT and tk.text in OPEN:
+                depth -= 1
+            elif depth == 0 and tk.kind == PUNCT and tk.text == ";":
+                break
+            k -= 1
+        first = _next_sig(out, k)
+        if out[first].text in ("return", "break", "continue"):
+            continue
+        CANARY_COUNT[0] += 1
+        cid = CANARY_COUNT[0]
+        ids.append(cid)
+        key = "end:" + ("fn" if ob == 0 else "".join(t.text for t in out[max(ob - 12, 0):ob] if t.kind not in (WS, COMMENT))[-50:])
+        occ[key] = occ.get(key, 0) + 1
+        keys[cid] = f"{key}#{occ[key]}"
+        ins.append((cb, f" proof {{ if verif_canary({cid}) {{ assert(false); }} }} // @CANARY.path.{cid}\n"))
+    for (pos, text) in sorted(ins, key=lambda x: -x[0]):
+        out[pos:pos] = [T("raw", text)]
+    if ids:
+        rep.append(("CANARY", f"path canaries in {qual}: " + json.dumps({str(c): keys[c] for c in ids})))
+    return out
+
+
 MUT_BINDINGS: list = []   # unit header `//! mut_bindings: Path::Variant ...`: `Path::Variant(x)` patterns bind `mut x`
 
 
@@ -1255,6 +1404,9 @@ def expand_imports(text):
 def build(template_text: str, repo: str, unit: str) -> Built:
     template_text = expand_imports(expand_includes(template_text))
     ASSERT_KW[0] = "assert!" if "#[cfg(kani)]" in template_text else "assert"
+    CANARY_COUNT[0] = 0
+    if PATH_CANARIES[0]:
+        template_text = template_text.replace("verus! {", "verus! {\npub uninterp spec fn verif_canary(k: int) -> bool;", 1)
     parts = parse_template(template_text)
     def _mark_hint(text):
         out_l = []
@@ -1496,6 +1648,8 @@ def _build_fn(sf: SourceFile, item: Item, impl, ex: Extract, props, rep, unit, a
     body_toks = rw_strip_comments(body_toks, rep)
     body_toks = rw_mut_bindings(body_toks, rep)
     body_toks = rw_R17_ctor_fn(body_toks, rep)
+    if PATH_CANARIES[0] and a.get("mode") != "stub":
+        body_toks = rw_path_canaries(body_toks, rep, qual, ex, unit_ret=("->" not in text_of(sig_toks)))
     rules = ex.rules
     if "R2" in rules:
         sig_toks = rw_R2_async(sig_toks, rep)
@@ -2126,7 +2280,9 @@ def main(argv):
     ap.add_argument("--repo", default=os.environ.get("VERIF_REPO", "/repo"))
     ap.add_argument("-o", "--out", default="-")
     ap.add_argument("--report", default=None)
+    ap.add_argument("--path-canaries", action="store_true")
     args = ap.parse_args(argv)
+    PATH_CANARIES[0] = bool(args.path_canaries)
     unit = os.path.splitext(os.path.basename(args.template))[0]
     try:
         b = build(open(args.template).read(), args.repo, unit)
